@@ -105,6 +105,7 @@ class Oracle:
         self.kind = kind
         self.st = {}            # key -> rec | UNKNOWN   (absent keys are not in the dict)
         self.complete = True    # the key set of self.st is the whole swamp
+        self.ghost = False      # an empty swamp may nevertheless answer "exists" (listed finding)
 
     # ---- knowledge -------------------------------------------------------------------------
     def known(self, k):
@@ -117,7 +118,10 @@ class Oracle:
         """True / False / UNKNOWN"""
         if any(r is not UNKNOWN for r in self.st.values()):
             return True
-        return False if (self.complete and not self.st) else UNKNOWN
+        return False if (self.complete and not self.st and not self.ghost) else UNKNOWN
+
+    def forget_existence(self):
+        self.ghost = True
 
     def forget(self, keys=None):
         if keys is None:
@@ -163,9 +167,9 @@ class Oracle:
                 self._learn_rec(k, parse_rec(tok))
             self.complete = True
         elif v in ("count", "issw") and reply in ("count -", "issw 0"):
-            self.st, self.complete = {}, True
+            self.st, self.complete, self.ghost = {}, True, False
         elif reply in ("err:FailedPrecondition",) and v in ("get", "getall", "gbk", "shift", "iske"):
-            self.st, self.complete = {}, True
+            self.st, self.complete, self.ghost = {}, True, False
 
     def _learn_rec(self, k, rec):
         # the wire form hides non-positive times and cannot tell an empty slice from void: only a
@@ -407,6 +411,9 @@ class Oracle:
             self.st, self.complete = {}, True
 
 
+READ_ONLY = ("get", "getall", "gbk", "count", "iske", "arek", "issw", "size", "hasval")
+
+
 def check_case(ops, impl, skip_lines=()):
     """ops/impl: the lines of one case (header first).  Returns the list of
     (index, op, expected, got) where the implementation's reply is not the reference's."""
@@ -435,7 +442,10 @@ def check_case(ops, impl, skip_lines=()):
                 o.forget(None)     # a listed finding changed what the reload shows
             continue
         if i in skip_lines:
-            o.forget(o.keys_of(f) or None)
+            if f[0] in READ_ONLY:
+                o.forget_existence()    # a read cannot change records; it may have summoned the swamp
+            else:
+                o.forget(o.keys_of(f) or None)
             o.learn(f, got)
             continue
         exp, commit = o.expect(f)
